@@ -16,7 +16,7 @@ for c in sorted(os.listdir(src)):
             print("skip (not confirmed)", d); continue
         meta = json.load(open(os.path.join(d, "meta.json")))
         chk = json.load(open(os.path.join(d, "check_results.json"))) if os.path.exists(os.path.join(d, "check_results.json")) else {"results": {}}
-        sid = "%s%s" % (c, x if rnd == "1" else {"2": {"a": "c", "b": "d"}, "3": {"a": "e", "b": "f"}}[rnd][x])
+        sid = "%s%s" % (c, x if rnd == "1" else {"2": {"a": "c", "b": "d"}, "3": {"a": "e", "b": "f"}, "4": {"a": "g", "b": "h"}}[rnd][x])
         out = os.path.join(dst, sid)
         os.makedirs(out, exist_ok=True)
         shutil.copy(os.path.join(d, "patch.diff"), os.path.join(out, "patch.diff"))
